@@ -180,7 +180,7 @@ PROOFS = [
 ] + [
     dict(LEMMA, name='lemma_connection', lemma='lemma_connection', replay={'driver': 'hdr_rt', 'argv': ['connection', '$control']}, harness='#ifdef VS_EXEC\nvoid h_lemma_connection(void) { int c; lemma_connection(c); }\n#endif\n'),
     dict(LEMMA, name='lemma_encoding', lemma='lemma_encoding', replay={'driver': 'hdr_rt', 'argv': ['encoding', '$e']}, harness='#ifdef VS_EXEC\nvoid h_lemma_encoding(void) { int e; lemma_encoding(e); }\n#endif\n'),
-    {'name': 'CacheControl_parseRaw', 'enforce': 'Pistache_Http_Header_CacheControl_parseRaw', 'loops': 'contracts', 'props': ['C16', 'C03'], 'cost': 20, 'defs': ['-DVS_LIGHT'],
+    {'name': 'CacheControl_parseRaw', 'quick_props': ['C16'], 'enforce': 'Pistache_Http_Header_CacheControl_parseRaw', 'loops': 'contracts', 'props': ['C16', 'C03'], 'cost': 20, 'defs': ['-DVS_LIGHT'],
      'replace': [ADV, 'Pistache_match_raw'],
      'harness': 'void h_CacheControl_parseRaw(void) { struct Pistache_Http_Header_CacheControl *a0; char *a1; size_t a2; Pistache_Http_Header_CacheControl_parseRaw(a0, a1, a2); }\n'},
 ]
